@@ -1071,6 +1071,70 @@ func c20index(c *Ctx) {
 		})
 	}
 	c.R.Min(rule, 1, "parse* methods applying a constant index to a slice")
+	// (round 8) the other functions of the parser package — the analyzer that turns the AST into the API description:
+	// a constant index into a list that was handed in (a field of a parameter) is dominated by a test of that list's
+	// length; a source without statements (blank, comments only) parses to an AST with an empty statement list
+	sameSlice := func(a, b ssa.Value) bool {
+		if a == b {
+			return true
+		}
+		la, ok1 := a.(*ssa.UnOp)
+		lb, ok2 := b.(*ssa.UnOp)
+		if !ok1 || !ok2 {
+			return false
+		}
+		fa, ok1 := la.X.(*ssa.FieldAddr)
+		fb, ok2 := lb.X.(*ssa.FieldAddr)
+		return ok1 && ok2 && fa.Field == fb.Field && fa.X == fb.X
+	}
+	for _, f := range c.P.AllFuncs(goctlParser) {
+		if recvName(f) == "Parser" && strings.HasPrefix(f.Name(), "parse") {
+			continue
+		}
+		for _, b := range f.Blocks {
+			for _, ins := range b.Instrs {
+				ia, ok := ins.(*ssa.IndexAddr)
+				if !ok {
+					continue
+				}
+				if _, isSl := ia.X.Type().Underlying().(*types.Slice); !isSl {
+					continue
+				}
+				if _, isC := ia.Index.(*ssa.Const); !isC {
+					continue
+				}
+				ld, isLoad := ia.X.(*ssa.UnOp)
+				if !isLoad {
+					continue
+				}
+				if _, isField := ld.X.(*ssa.FieldAddr); !isField {
+					continue
+				}
+				pos, neg := knownCondsBoth(b, 0)
+				tested := false
+				for _, cnd := range append(pos, neg...) {
+					bo, ok := cnd.(*ssa.BinOp)
+					if !ok {
+						continue
+					}
+					for _, side := range []ssa.Value{bo.X, bo.Y} {
+						if call, ok := side.(*ssa.Call); ok {
+							if bi, ok := call.Call.Value.(*ssa.Builtin); ok && bi.Name() == "len" && len(call.Call.Args) == 1 && sameSlice(call.Call.Args[0], ia.X) {
+								tested = true
+							}
+						}
+					}
+				}
+				name := goctlParser + "." + f.Name() + "#const-index"
+				text := "a constant index into a list the function was handed is dominated by a test of that list's length (a source without statements is answered with an error, not an index panic)"
+				if tested {
+					c.R.Hold(rule, name, text, 1)
+				} else {
+					c.R.Fail(rule, name, text, c.P.Pos(ia.Pos()), "the list is indexed without its length having been tested: an AST without statements (blank source, comments only) makes the analyzer panic with index out of range", nil)
+				}
+			}
+		}
+	}
 }
 
 // c20rendering: the called method puts its receiver into the output — a Format method, or a
